@@ -124,7 +124,7 @@ func (t c13Tree) pick(sel int) (string, bool) {
 }
 
 func genC13(rt *rapid.T) c13Case {
-	g := kit.G{T: rt}
+	g := vgU{T: rt}
 	c := c13Case{}
 	nb := g.Int(2, 3, "nbranch")
 	c.Branches = []string{"main", "dev", "release"}[:nb]
@@ -135,24 +135,19 @@ func genC13(rt *rapid.T) c13Case {
 	} else {
 		c.Via = "shards"
 	}
-	c.ShardMax = kit.Pick(g, []int{0, 0, 0, 0, 150, 60}, "shardmax")
-	c.Threshold = kit.Pick(g, []uint64{0, 0, 0, 0, 2, 4}, "threshold")
+	c.ShardMax = vgPick(g, []int{0, 0, 0, 0, 150, 60}, "shardmax")
+	c.Threshold = vgPick(g, []uint64{0, 0, 0, 0, 2, 4}, "threshold")
 	c.CfgID = g.Bool(30, "cfgid")
-	ni := g.Int(0, 4, "ninit")
-	if ni > 0 {
-		ni = 5 - ni // favour several shared files
-	}
+	ni := vgPick(g, []int{3, 4, 2, 4, 1, 3, 0, 5}, "ninit")
 	seen := map[string]bool{}
 	for i := 0; i < ni; i++ {
-		p := kit.Pick(g, c13Paths[:7], "ipath") // conflict-free part of the pool
+		p := vgPick(g, c13Paths[:7], "ipath") // conflict-free part of the pool
 		if seen[p] {
 			continue
 		}
 		seen[p] = true
-		c.Init = append(c.Init, c13File{Path: p, Content: kit.Pick(g, c13Contents, "icontent")})
+		c.Init = append(c.Init, c13File{Path: p, Content: vgPick(g, c13Contents, "icontent")})
 	}
-	// rapid's integer draws favour small values, so the lists below put the
-	// choices that matter most first.
 	kinds := []string{
 		"modify", "delete", "copy", "same", "move", "rename", "modify", "revert", "delete", "add",
 		"sync", "copy", "chmod", "add", "modify", "move", "empty", "rename", "same", "revert",
@@ -162,12 +157,12 @@ func genC13(rt *rapid.T) c13Case {
 		st := c13Step{}
 		nc := g.Int(1, 3, "nchanges")
 		for j := 0; j < nc; j++ {
-			ch := c13Change{Kind: kit.Pick(g, kinds, "kind"), B: g.Int(0, nb-1, "b")}
+			ch := c13Change{Kind: vgPick(g, kinds, "kind"), B: g.Int(0, nb-1, "b")}
 			ch.O = (ch.B + g.Int(1, nb-1, "o")) % nb
 			ch.Sel = g.Int(0, 11, "sel")
-			ch.Path = kit.Pick(g, c13Paths, "path")
+			ch.Path = vgPick(g, c13Paths, "path")
 			if g.Bool(45, "poolcontent") {
-				ch.Content = kit.Pick(g, c13Contents, "content")
+				ch.Content = vgPick(g, c13Contents, "content")
 			} else {
 				ver++
 				ch.Content = fmt.Sprintf("version %d of something\nline two\n", ver)
@@ -178,12 +173,12 @@ func genC13(rt *rapid.T) c13Case {
 		return st
 	}
 	indexStep := func() c13Step {
-		return c13Step{Index: kit.Pick(g, []string{"delta", "delta", "full", "delta"}, "index")}
+		return c13Step{Index: vgPick(g, []string{"delta", "delta", "full", "delta"}, "index")}
 	}
 	// an optional indexing run of the initial state, then 1-4 rounds of
 	// (1-2 commit steps, 1 indexing run; rarely 2 runs in a row)
 	if !g.Bool(15, "noinitialindex") {
-		c.Steps = append(c.Steps, c13Step{Index: kit.Pick(g, []string{"full", "delta"}, "index0")})
+		c.Steps = append(c.Steps, c13Step{Index: vgPick(g, []string{"full", "full", "delta"}, "index0")})
 	}
 	nr := g.Int(1, 4, "nrounds")
 	for i := 0; i < nr; i++ {
@@ -191,7 +186,7 @@ func genC13(rt *rapid.T) c13Case {
 			c.Steps = append(c.Steps, commitStep())
 		}
 		c.Steps = append(c.Steps, indexStep())
-		if g.Bool(5, "again") {
+		if g.Bool(8, "again") {
 			c.Steps = append(c.Steps, indexStep())
 		}
 	}
